@@ -159,6 +159,12 @@ func checkC17(c *ev.Ctx) {
 		k.LC, k.LP, k.PB, k.BufSize, k.Seed = 3, 0, 2, 4096, r.U64()|3
 		cases = append(cases, k)
 	}
+	// X||X inside one block of a writer with a finite BlockSize and a look-ahead buffer of various
+	// sizes (round 16): block size and buffer size must not shorten the distances the dictionary allows
+	for j, pc := range [][4]int{{400 << 10, 1 << 20, 1 << 20, 768 << 10}, {100000, 1 << 17, 200000, 65536}, {300000, 1 << 19, 600001, 300000}, {65536, 65536, 140000, 70000}} {
+		cases = append(cases, ratioCase{ID: fmt.Sprintf("blockbuf-xx-%d", j), Kind: "xx", Writer: "xz", N: pc[0], DictCap: pc[1], BlockSize: int64(pc[2]), BufSize: pc[3],
+			LC: 3, LP: 0, PB: 2, Matcher: j % 2, Seed: prng.New(c.Seed, 172, uint64(j)).U64() | 3})
+	}
 	c.MinEvals(int64(n / 2))
 	var fracMu sync.Mutex
 	maxFrac := map[string]float64{}
